@@ -319,6 +319,25 @@ func runC12(r *simkit.Run, c Cfg) {
 					r.Violate("c12.roundtrip", "decrypt(encrypt(empty metadata)) gave %d bytes, %v", len(back), err)
 				}
 			}
+			// a caller that keeps one buffer for its passphrases and refills
+			// it: each call works with the passphrase that is in the buffer at
+			// the time, whatever an earlier call saw there
+			if len(other) == len(mh) {
+				fn, fc, _ := dhash.EncryptAES(e.metadata, append([]byte(nil), other...)) // reference, taken first
+				buf := append([]byte(nil), mh...)
+				n1, c1, err1 := dhash.EncryptAES(e.metadata, buf)
+				copy(buf, other)
+				n2, c2, err2 := dhash.EncryptAES(e.metadata, buf)
+				if err1 != nil || err2 != nil || !bytes.Equal(n2, fn) || !bytes.Equal(c2, fc) {
+					r.Violate("c12.determinism", "encrypting under a passphrase held in a reused buffer differs from encrypting under the same passphrase in a slice of its own")
+				}
+				if back, err := dhash.DecryptAES(n1, c1, append([]byte(nil), mh...)); err != nil || !bytes.Equal(back, e.metadata) {
+					r.Violate("c12.roundtrip", "a value encrypted under a passphrase from a buffer that was refilled afterwards no longer decrypts under that passphrase: %v", err)
+				}
+				if _, err := dhash.DecryptAES(n1, c1, buf); err == nil && !bytes.Equal(mh, other) {
+					r.Violate("c12.failclosed", "a value decrypts under the passphrase a reused buffer holds now, not the one it was encrypted under")
+				}
+			}
 			hvk := sha256.Sum256(vk)
 			mdKey := base58.Encode(hvk[:])
 			switch e.tamper {
